@@ -125,6 +125,47 @@ Robust(m, x, ctn) ==
 PointsOfTheDomainAreFound(m, pts, err, ct) ==
   (err # "") => \E n \in DOMAIN pts : ~Robust(m, pts[n], ct[n])
 
+\* ---------------------------------------------------------------------------
+\* Large meshes (several hundred cells): the clauses are decided from WITNESSES so that the cost per point does
+\* not grow with the mesh.  hint[n] is a cell the generator claims to contain pts[n] (0: the point is claimed to be
+\* far outside the bounding box).  The claim is verified exactly (WitnessContainsPoint), then
+\*   found   => the returned cell contains the point (exact test on that one cell)
+\*   raised  => some point has no witness (and, for PointsOfTheDomainAreFound, is not robustly inside its witness)
+IMin(s) == FoldLeft(LAMBDA acc, x : IF x < acc THEN x ELSE acc, s[1], s)
+IMax(s) == FoldLeft(LAMBDA acc, x : IF x > acc THEN x ELSE acc, s[1], s)
+BBox(m) == [c \in 1..Dimn(m) |-> [lo |-> IMin([v \in DOMAIN m.p |-> m.p[v][c]]), hi |-> IMax([v \in DOMAIN m.p |-> m.p[v][c]])]]
+\* beyond the bounding box by more than its extent along some axis: every barycentric coordinate sum argument
+\* shows that some barycentric coordinate w.r.t. ANY cell is <= -1/(dim+1), i.e. the point is far outside
+BBoxFar(bb, x) == \E c \in DOMAIN bb : x[c] > 2 * bb[c].hi - bb[c].lo \/ x[c] < 2 * bb[c].lo - bb[c].hi
+CellCodeSimplices(m, k) ==
+  IF m.kind \in {"line", "tri", "tet"} THEN <<CellPts(m, k)>>
+  ELSE LET tb == SplitTable(m.kind) IN [s \in DOMAIN tb |-> Sub(CellPts(m, k), tb[s])]
+RobustInCell(m, x, k) ==
+  LET sims == CellCodeSimplices(m, k) IN
+  \E s \in DOMAIN sims : \/ StrictlyInsideSimplex(sims[s], x)
+                          \/ (IsPow2(Abs(OrientV(sims[s]))) /\ InClosedSimplex(sims[s], x))
+BigWellFormed(m, pts, res, err, hint) ==
+  /\ FindWellFormed(m, pts, res, err)
+  /\ Len(hint) = Len(pts) /\ \A n \in DOMAIN hint : hint[n] \in 0..Len(m.t)
+WitnessContainsPoint(m, bb, pts, hint) ==
+  \A n \in DOMAIN pts : IF hint[n] # 0 THEN InClosedCell(m.kind, CellPts(m, hint[n]), pts[n]) ELSE BBoxFar(bb, pts[n])
+FoundCellContainsPointW(m, pts, res, err) ==
+  (err = "") => \A n \in DOMAIN pts : InClosedCell(m.kind, CellPts(m, res[n]), pts[n])
+PointsOfTheDomainAreFoundW(m, pts, err, hint) ==
+  (err # "") => \E n \in DOMAIN pts : hint[n] = 0 \/ ~RobustInCell(m, pts[n], hint[n])
+BoundaryPointsAreFoundW(err, hint) == (err # "") => \E n \in DOMAIN hint : hint[n] = 0
+RaisesOutsideW(err, hint) == (\E n \in DOMAIN hint : hint[n] = 0) => err # ""
+\* evidence: how many centroids (of the simplices the code searches) are closer to x than the centroid of the
+\* nearest code simplex of the witness cell that contains x -- the containing cell is NOT among the k nearest
+\* candidates (fallback path) when this is >= k
+WitnessRank(m, x, k) ==
+  LET sm == CodeSimplices(m)
+      nt == Len(m.t)
+      cs == [c \in DOMAIN sm.t |-> CSum(sm, c)]
+      d  == [c \in DOMAIN sm.t |-> D2(sm, cs, c, x)]
+      mine == {c \in DOMAIN sm.t : ((c - 1) % nt) + 1 = k /\ InClosedSimplex(CellPts(sm, c), x)}
+  IN IMin([j \in 1..Cardinality(mine) |-> Cardinality({i \in DOMAIN sm.t : d[i] < d[SetToSeq(mine)[j]]})])
+
 \* line finder -- mesh_line_1.py:79-94
 FindLineImpl(m, pts) ==
   LET nv   == Len(m.p)
